@@ -80,6 +80,17 @@ def generate(rng, tier):
                     p["pix"][a] = max(p["pix"][a], 1)
         yield {"shape": shape, "fam": fam, "wseed": rng.randrange(10**6), "ecs": ecs, "which": which, "shifts": shifts,
                "points": pts, "form": form, "share_wcs": share}
+    # systematic: short 1-D and 2-D FITS cubes whose grids differ by one whole pixel - the world values of such
+    # axes are tiny in SI units (wavelengths in metres), so "the same grid up to a default tolerance" is wrong
+    for fam in ("fits_sep", "fits_cel", "fits_rot"):
+        for nd in (1, 2):
+            for s, ax in ((1, 0), (-1, 0), (1, nd - 1), (-1, nd - 1)):
+                for which in ("wcs", "default"):
+                    shape = [8] * nd
+                    yield {"shape": shape, "fam": fam, "wseed": 5 * rng.randrange(10**5) + 1, "ecs": [], "which": which,
+                           "shifts": [[0] * nd, [s if a == ax else 0 for a in range(nd)]],
+                           "points": [{"pix": [3.25] * nd, "none_bits": 0}, {"pix": [4.625] * nd, "none_bits": 0}],
+                           "form": rng.choice(["values", "objects"]), "share_wcs": False}
 
 
 def build(case):
